@@ -55,6 +55,17 @@ type cfgChanOp struct {
 	Note          string `json:"note"`
 }
 
+// cfgCTA is a reviewed check-then-act row: in Func, a value obtained under
+// Lock (through Source: a callee that takes the lock itself, or a field read
+// in an earlier hold) is tested, and a later, separate hold of the same lock
+// follows.
+type cfgCTA struct {
+	Func   string `json:"func"`
+	Lock   string `json:"lock"`
+	Source string `json:"source"`
+	Note   string `json:"note"`
+}
+
 type cfgEdgeInst struct {
 	Holder   string `json:"holder"`
 	Acquirer string `json:"acquirer"`
@@ -79,6 +90,8 @@ type cfgKnownAcq struct {
 }
 
 type config struct {
+	// CheckThenAct is the reviewed baseline of check-then-act rows.
+	CheckThenAct []cfgCTA `json:"check_then_act"`
 	// ChannelOps is the reviewed table of blocking channel operations under locks.
 	ChannelOps []cfgChanOp `json:"channel_ops"`
 	// Gates maps a lock class to the lock class that gates it: every
@@ -177,6 +190,26 @@ type chanOpSite struct {
 	init     bool
 }
 
+// ctaSrc is where a tested value comes from.
+type ctaSrc struct {
+	callee *types.Func  // a callee that returns a value (nil for a field read)
+	class  int          // field read: the lock held while reading …
+	seq    int          // … and which acquisition of it
+	held   map[int]bool // lock classes held by the function when the value was obtained
+	name   string
+	pos    string
+}
+
+// ctaPair is a candidate: a condition on src followed by an act.
+type ctaPair struct {
+	fn        string
+	src       ctaSrc
+	condPos   string
+	actClass  int         // direct acquisition (-1 if through a callee)
+	actCallee *types.Func // callee that may acquire
+	actPos    string
+}
+
 type acqSite struct {
 	fn     string
 	class  int
@@ -261,6 +294,7 @@ type analysis struct {
 	addrTaken    map[string]bool
 	dynAll       map[string]int
 	acqSites     []*acqSite
+	ctaPairs     []ctaPair
 	chanOps      []*chanOpSite
 	seq          int
 	exemptAcqs   map[string]bool
@@ -440,6 +474,7 @@ func (a *analysis) reset() {
 	a.addrTaken = map[string]bool{}
 	a.dynAll = map[string]int{}
 	a.acqSites = nil
+	a.ctaPairs = nil
 	a.chanOps = nil
 	a.exemptAcqs = map[string]bool{}
 }
